@@ -154,3 +154,62 @@ class NsScore(Task):
     def run(self, x, y) -> int:
         RUNS.append(self.fullname)
         return 1000 * x + y
+
+
+class Const(Task):
+    """no parameters, no inputs"""
+
+    def run(self) -> int:
+        RUNS.append(self.fullname)
+        return 42
+
+
+class UsesConst(Task):
+    class Meta:
+        input_tasks = [Const]
+
+    def run(self, const) -> int:
+        RUNS.append(self.fullname)
+        return const + 1
+
+
+COUNTER = {'n': 0}
+
+
+class Counter(Task):
+    """each execution yields a new value: shows whether a stored result was really replaced"""
+
+    def run(self) -> int:
+        RUNS.append(self.fullname)
+        COUNTER['n'] += 1
+        return COUNTER['n']
+
+
+class AfterCounter(Task):
+    class Meta:
+        input_tasks = [Counter]
+
+    def run(self, counter) -> int:
+        RUNS.append(self.fullname)
+        return counter * 10
+
+
+class Vocab(Task):
+    """in-memory task with a parameter"""
+
+    class Meta:
+        data_class = InMemoryData
+        parameters = [Parameter('lang', default='en')]
+
+    def run(self, lang) -> str:
+        RUNS.append(self.fullname)
+        return f'vocab-{lang}'
+
+
+class Feats(Task):
+    class Meta:
+        input_tasks = [Vocab]
+
+    def run(self, vocab) -> str:
+        RUNS.append(self.fullname)
+        return f'feats({vocab})'
